@@ -1395,7 +1395,7 @@ class Repository:
 
         def _write_chunk_ref(ref, contents):
             file_path, chunk_size, stream_start, start = ref
-            restore_to, _ = files_metadata[file_path]
+            restore_to, _, _ = files_metadata[file_path]
 
             with glock:
                 try:
@@ -1484,7 +1484,9 @@ class Repository:
                 if not digests:
                     logger.info('Finished writing file %s', file_path)
                     with glock:
-                        restore_path, metadata = files_metadata.pop(file_path)
+                        restore_path, metadata, size = files_metadata.pop(file_path)
+                    # The file may have existed before and been longer
+                    os.truncate(restore_path, size)
                     self.restore_metadata(restore_path, metadata)
                     finished_tracker.update()
 
@@ -1512,7 +1514,6 @@ class Repository:
                     continue
 
                 restore_to = Path(path, *Path(file_path).parts[1:]).resolve()
-                files_metadata[file_path] = (restore_to, file_data['metadata'])
                 digests = files_digests[file_path] = set()
 
                 ordered_chunks = sorted(file_data['chunks'], key=lambda x: x['counter'])
@@ -1534,6 +1535,11 @@ class Repository:
                     )
                     chunk_position += chunk_size
 
+                files_metadata[file_path] = (
+                    restore_to,
+                    file_data['metadata'],
+                    chunk_position,
+                )
                 total_bytes += chunk_position
 
         bytes_tracker = tqdm(
